@@ -5,6 +5,7 @@
 #include "logger.h"
 #include "transposition_table.h"
 #include "chessplusplusConfig.h"
+#include "verif_hook.h"
 
 namespace engine
 {
@@ -243,6 +244,7 @@ bool Uci::moves_command(std::istringstream& istream)
 
 void start_searching(Uci* uci)
 {
+    VERIF_POINT("thread_start", 0, 0);
     uint64_t key = PolyglotBook::hash(uci->position);
     if (uci->polyglot.contains(key))
     {
